@@ -116,6 +116,46 @@ def cvn_scenario(pool, g, cls=None, bad=0.05):
     return cvn_case(pool, s, "pin", (pin, arqc, atc, cur), "cvn pin change")
 
 
+def atc_buffer_cases(R, pool):
+    """one object per class, the ATC handed over as one bytearray that the caller updates in place between calls
+    (a cache that remembers the caller's ATC *object* compares the buffer with itself)"""
+    cases = []
+    for c in CLS:
+        s = pool.spec(c)
+        buf = bytearray(2)
+        for i in list(range(1, 5)) + [0x100, 0x101]:
+            atc = i.to_bytes(2, "big"); un = R.randbytes(4)
+            f = [R.randbytes(6), R.randbytes(6), R.randbytes(2), R.randbytes(5), R.randbytes(2), R.randbytes(3), R.randbytes(1), un, R.randbytes(2), atc]
+            tail = R.randbytes(8); cnt = R.randbytes(8)
+            base = cvn_case(pool, s, "ac", (f, tail, cnt), "cvn ATC in a reused bytearray")
+            def call(atc=atc, f=f, tail=tail, cnt=cnt, s=s, c=c):
+                buf[:] = atc
+                o = pool.obj(s)
+                args = f[:9] + [buf, tail] + ([cnt] if c in HAS_COUNTERS else [])
+                return o.generate_ac(*args)
+            base.call = call
+            cases.append(base)
+            arqc = R.randbytes(8)
+            b2 = cvn_case(pool, s, "mac", (R.randbytes(5), arqc, atc, b""), "cvn ATC in a reused bytearray")
+            if c != "InteracCVN133":
+                hdr = bytes.fromhex(b2.line.split()[8]) if b2.line.split()[8] != "." else b""
+                def call2(atc=atc, arqc=arqc, hdr=hdr, s=s):
+                    buf[:] = atc
+                    return pool.obj(s).generate_command_mac(hdr, arqc, buf, b"")
+                b2.call = call2
+            cases.append(b2)
+            arq2 = R.randbytes(8)
+            b3 = cvn_case(pool, s, "arpc", (arq2, atc, un, R.randbytes(2), R.randbytes(4), None), "cvn ATC in a reused bytearray")
+            if c in ("VisaCVN18", "VisaCVN22"):
+                csu = bytes.fromhex(b3.line.split()[-2])
+                def call3(atc=atc, arq2=arq2, csu=csu, s=s):
+                    buf[:] = atc
+                    return pool.obj(s).generate_arpc(arq2, buf, csu, None)
+                b3.call = call3
+            cases.append(b3)
+    return cases
+
+
 def C08(ctx):
     g = G(ctx.sub("g")); R = g.R
     pool = CardPool(g)
@@ -142,31 +182,7 @@ def C08(ctx):
             s = (c, (g.key(), g.key(), g.key()), g.form(rp), g.form(rs))
             cases.append(cvn_case(pool, s, "keys", None, "cvn option B rare branch"))
             cases.append(cvn_case(pool, s, "mac", (R.randbytes(5), R.randbytes(8), R.randbytes(2), b""), "cvn option B rare branch"))
-    # one object, the ATC handed over as one bytearray that the caller updates in place between calls
-    for c in CLS:
-        s = pool.spec(c)
-        buf = bytearray(2)
-        for i in list(range(1, 5)) + [0x100, 0x101]:
-            atc = i.to_bytes(2, "big"); un = R.randbytes(4)
-            f = [R.randbytes(6), R.randbytes(6), R.randbytes(2), R.randbytes(5), R.randbytes(2), R.randbytes(3), R.randbytes(1), un, R.randbytes(2), atc]
-            tail = R.randbytes(8); cnt = R.randbytes(8)
-            base = cvn_case(pool, s, "ac", (f, tail, cnt), "cvn ATC in a reused bytearray")
-            def call(atc=atc, f=f, tail=tail, cnt=cnt, s=s, c=c):
-                buf[:] = atc
-                o = pool.obj(s)
-                args = f[:9] + [buf, tail] + ([cnt] if c in HAS_COUNTERS else [])
-                return o.generate_ac(*args)
-            base.call = call
-            cases.append(base)
-            arqc = R.randbytes(8)
-            b2 = cvn_case(pool, s, "mac", (R.randbytes(5), arqc, atc, b""), "cvn ATC in a reused bytearray")
-            if c != "InteracCVN133":
-                hdr = bytes.fromhex(b2.line.split()[8]) if b2.line.split()[8] != "." else b""
-                def call2(atc=atc, arqc=arqc, hdr=hdr, s=s):
-                    buf[:] = atc
-                    return pool.obj(s).generate_command_mac(hdr, arqc, buf, b"")
-                b2.call = call2
-            cases.append(b2)
+    cases += atc_buffer_cases(R, pool)
     # payloads handed over as one bytearray that the caller keeps and sends again (second card, retry)
     for c in CLS:
         for ln in (5, 8, 13, R.randrange(1, 40)):
@@ -507,6 +523,12 @@ def C13(ctx):
             if got[0] == "ok":
                 ctx.check("adjust: odd, only bit 0, idempotent", all(odd(b) for b in got[1]) and tools.adjust_key_parity(got[1]) == got[1],
                           f"adjust_key_parity(<{name}> of {hx(k)}) -> {hx(got[1])}")
+    # equal up to parity bits to the prescribed value: unusual (non power of two) branch factors against the model
+    shaped = []
+    for _ in range(ctx.n(150, 1500)):
+        b, h = R.choice([(3, 11), (5, 7), (6, 7), (7, 6), (10, 5), (12, 5), (17, 4), (41, 3), (255, 3), (257, 2), (300, 2), (1000, 2), (65537, 1)])
+        shaped.append(op_tree_sk(g.key(), R.randbytes(2), h, b, R.choice([bytes(16), R.randbytes(16)]), gen="tree shapes with other branch factors"))
+    ctx.run_cases(shaped)
     # refusals: nothing is handed back for a master key of the wrong size
     bad = []
     for _ in range(ctx.n(60, 300)):
